@@ -174,7 +174,7 @@ def parse_template(path):
                     sec = (kind, int(m.group(2)), [])
                     cur.sections.append(sec)
                     continue
-                m = re.match(r'(before|after)\s+"(.*)"\s*(#(\d+))?$', d)
+                m = re.match(r'(before|after)\s+"(.*)"\s*(#(-?\d+))?$', d)
                 if m:
                     sec = (m.group(1) + "anchor", (m.group(2), int(m.group(4) or 0)), [])
                     cur.sections.append(sec)
@@ -261,6 +261,9 @@ def assemble_item(d, info, src, srcfile_label, log):
             if o.startswith("attr("):
                 at = it["sig"][0] if it.get("vis") is None else it["vis"][0]
                 add(at, at, "#[" + o[5:-1] + "] ", "INSERT_SPEC")
+        if d.opt("trusted"):
+            at = it["sig"][0] if it.get("vis") is None else it["vis"][0]
+            add(at, at, "#[verifier::external_body] ", "TRUSTED")
     # VIS
     if not d.opt("keepvis") and kind in ("fn", "struct", "enum", "const", "static", "type", "trait"):
         novis = d.opt("novis")
@@ -360,9 +363,6 @@ def assemble_item(d, info, src, srcfile_label, log):
             a, b = it["ret"]
             add(a, a, f"({rn}: ", "INSERT_SPEC")
             add(b, b, ")", "INSERT_SPEC")
-        if d.opt("trusted"):
-            add(it["sig"][0] if it.get("vis") is None else it["vis"][0], it["sig"][0] if it.get("vis") is None else it["vis"][0],
-                "#[verifier::external_body] ", "TRUSTED")
         bo, bc = it["body_open"], it["body_close"]
         if d.opt("nobody"):
             if bo >= 0:
@@ -410,7 +410,9 @@ def assemble_item(d, info, src, srcfile_label, log):
                 snippet, k = arg
                 body = src[start:end]
                 idxs = [m.start() for m in re.finditer(re.escape(snippet.encode()), body)]
-                if k >= len(idxs):
+                if k < 0:
+                    k = len(idxs) + k
+                if k >= len(idxs) or k < 0:
                     raise Undecided(f"{d.path}: anchor \"{snippet}\"#{k} not found -- anchor lost")
                 pos = start + idxs[k]
                 if skind == "afteranchor":
@@ -451,6 +453,12 @@ def assemble_item(d, info, src, srcfile_label, log):
                         if ve != be:
                             add(ve, be, "", "DESUGAR_BREAK_VALUE")
                         add(be, be, "; break; }", "DESUGAR_BREAK_VALUE")
+            elif o == "desugar(wild)":
+                # `_` as a closure or function parameter -> a fresh identifier (Verus rejects `_` parameters)
+                if not it.get("wilds"):
+                    raise Undecided(f"{d.path}: desugar(wild) but no `_` parameter found")
+                for k_, (a, b) in enumerate(it["wilds"]):
+                    add(a, b, f"_w{k_}", "DESUGAR_WILD_PARAM")
             elif o == "desugar(ref_pat)":
                 if not it["ref_pats"]:
                     raise Undecided(f"{d.path}: desugar(ref_pat) but no `&ident` pattern found")
